@@ -41,7 +41,7 @@ fn load_routes() -> Vec<RouteRow> {
     for line in text.lines() {
         if line.starts_with('#') || line.trim().is_empty() { continue; }
         let f: Vec<&str> = line.split('\t').collect();
-        if f[0] == "doc" { continue; }
+        if f[0] == "doc" || f[0] == "main" { continue; }
         out.push(RouteRow {
             idx: out.len(),
             app: f[0].to_string(),
@@ -74,6 +74,8 @@ struct Conf {
     raft_explicit: Option<Option<String>>,
     tenants: Vec<String>,       // api keys of the tenants (cli app)
     admin: Option<String>,      // cli admin key
+    /// member of the exhaustive small scope (thorough): credentials are exactly none, "", a, b, c
+    exhaustive: bool,
 }
 
 fn build_rbac(c: &Conf, dir: &std::path::Path) -> RbacConfig {
@@ -101,7 +103,7 @@ fn build_rbac(c: &Conf, dir: &std::path::Path) -> RbacConfig {
 }
 
 fn cluster_confs(ctx: &mut Ctx) -> Vec<Conf> {
-    let base = Conf { keys: vec![], anon: false, anon_role: Role::Viewer, ctor: "multi", raft_explicit: None, tenants: vec![], admin: None };
+    let base = Conf { keys: vec![], anon: false, anon_role: Role::Viewer, ctor: "multi", raft_explicit: None, tenants: vec![], admin: None, exhaustive: false };
     let three = vec![("vk".to_string(), Role::Viewer), ("ok".to_string(), Role::Operator), ("ak".to_string(), Role::Admin)];
     let mut v = vec![
         // RBAC off: everybody is admin, raft open
@@ -134,11 +136,30 @@ fn cluster_confs(ctx: &mut Ctx) -> Vec<Conf> {
         let raft_explicit = match ctx.rng.below(3) { 0 => None, 1 => Some(None), _ => Some(Some(format!("r{}", ctx.rng.below(100)))) };
         v.push(Conf { keys, anon, anon_role, ctor: "fields", raft_explicit, ..base.clone() });
     }
+    if ctx.thorough {
+        // EXHAUSTIVE small scope: every key set of size <= 2 over the alphabet {a, b, c} with every role
+        // assignment (1 + 9 + 27 = 37), times anonymous access off / on with each anonymous role (4):
+        // 148 configurations in the production wiring (raft key = any_admin_key()), each met with every
+        // credential of the scope: no header, "", a, b, c.
+        let roles = [Role::Viewer, Role::Operator, Role::Admin];
+        let alpha = ["a", "b", "c"];
+        let mut keysets: Vec<Vec<(String, Role)>> = vec![vec![]];
+        for k in alpha { for r in roles { keysets.push(vec![(k.to_string(), r)]); } }
+        for i in 0..3 { for j in (i + 1)..3 { for r1 in roles { for r2 in roles {
+            keysets.push(vec![(alpha[i].to_string(), r1), (alpha[j].to_string(), r2)]);
+        } } } }
+        for ks in keysets {
+            v.push(Conf { keys: ks.clone(), anon: false, anon_role: Role::Viewer, ctor: "fields", exhaustive: true, ..base.clone() });
+            for ar in roles {
+                v.push(Conf { keys: ks.clone(), anon: true, anon_role: ar, ctor: "fields", exhaustive: true, ..base.clone() });
+            }
+        }
+    }
     v
 }
 
 fn cli_confs(ctx: &mut Ctx) -> Vec<Conf> {
-    let base = Conf { keys: vec![], anon: true, anon_role: Role::Admin, ctor: "disabled", raft_explicit: Some(None), tenants: vec![], admin: None };
+    let base = Conf { keys: vec![], anon: true, anon_role: Role::Admin, ctor: "disabled", raft_explicit: Some(None), tenants: vec![], admin: None, exhaustive: false };
     let mut v = vec![
         // no --api-key: admin API disabled, two tenants
         Conf { tenants: vec!["tk1".into(), "tk2".into()], ..base.clone() },
@@ -172,6 +193,9 @@ fn near_misses(k: &str) -> Vec<String> {
 
 /// (x-api-key, x-admin-key) pairs: none, empty, wrong, near misses, every configured key of every kind
 fn credentials(c: &Conf, raft_key: &Option<String>, app: &str, ctx: &mut Ctx) -> Vec<(Option<String>, Option<String>)> {
+    if c.exhaustive {
+        return vec![(None, None), (Some(String::new()), None), (Some("a".into()), None), (Some("b".into()), None), (Some("c".into()), None)];
+    }
     let mut keys: Vec<String> = vec![];
     for (k, _) in &c.keys { keys.push(k.clone()); }
     if let Some(k) = raft_key { keys.push(k.clone()); }
@@ -194,6 +218,8 @@ fn credentials(c: &Conf, raft_key: &Option<String>, app: &str, ctx: &mut Ctx) ->
     if app == "cluster" {
         for a in &api { out.push((a.clone(), None)); }
         out.push((None, Some("adm".into())));
+        out.push((None, Some(String::new())));          // the empty string in every header
+        out.push((Some(String::new()), Some(String::new())));
         if let Some((k, _)) = c.keys.first() { out.push((None, Some(k.clone()))); }   // a real key in the wrong header
     } else {
         let mut adm: Vec<Option<String>> = vec![None, Some(String::new()), Some("nope".into())];
@@ -379,7 +405,7 @@ async fn run_cluster(ctx: &mut Ctx, routes: &[RouteRow], tmp: &std::path::Path) 
         let keys = if conf.keys.is_empty() { "-".to_string() } else { conf.keys.iter().map(|(k, r)| format!("{}:{}", k, role_name(*r))).collect::<Vec<_>>().join(";") };
         ctx.directive(&format!("new cluster anon={} anonrole={} keys={} raft={} tenants=- admin=-",
             if rbac.allow_anonymous { 1 } else { 0 }, role_name(rbac.anonymous_role), keys, opt(&raft_key)));
-        ctx.count(&format!("conf:cluster:{}:{}", conf.ctor, if conf.raft_explicit.is_none() { "with_raft" } else { "raft_routes" }));
+        ctx.count(&format!("conf:cluster:{}:{}{}", conf.ctor, if conf.raft_explicit.is_none() { "with_raft" } else { "raft_routes" }, if conf.exhaustive { ":exhaustive-scope" } else { "" }));
         if conf.raft_explicit.is_none() {
             ctx.case(&format!("anyadmin {}", opt(&raft_key)), "ok");
         }
@@ -388,7 +414,7 @@ async fn run_cluster(ctx: &mut Ctx, routes: &[RouteRow], tmp: &std::path::Path) 
             let filter = $filter;
             for r in mine.iter().filter(|r| (r.pattern[0] == "raft") == $part) {
                 let mut paths = vec![instantiate(r, "", None)];
-                if r.pattern.iter().any(|s| s == "{}") && (ctx.thorough || ctx.rng.chance(1, 3)) {
+                if !conf.exhaustive && r.pattern.iter().any(|s| s == "{}") && (ctx.thorough || ctx.rng.chance(1, 3)) {
                     let c = ctx.rng.pick(&lits).clone();
                     paths.push(instantiate(r, "", Some(&c)));
                 }
